@@ -162,11 +162,32 @@ func (b *exampleBuilder) buildExampleForMixedValueNode(node *ischema.MixedValueN
 		return nil, errs.ErrLoader.F()
 	}
 
-	typeName := tt[0]
-	if !bytes.NewBytes(typeName).IsUserTypeName() {
+	if !bytes.NewBytes(tt[0]).IsUserTypeName() {
 		return node.Value().Data(), nil
 	}
 
+	// The first alternative that is not cut off by the recursion limit gives
+	// the example.
+	for _, typeName := range tt {
+		if !bytes.NewBytes(typeName).IsUserTypeName() {
+			continue
+		}
+		ex, err := b.buildExampleForUserType(typeName)
+		if err != nil {
+			return nil, err
+		}
+		if ex != nil {
+			return ex, nil
+		}
+	}
+
+	if ischema.IsNullableNode(node) {
+		return []byte("null"), nil
+	}
+	return nil, nil
+}
+
+func (b *exampleBuilder) buildExampleForUserType(typeName string) ([]byte, error) {
 	if cnt := b.processedTypes[typeName]; cnt > 1 {
 		// Do not process already processed type more than twice.
 		return nil, nil
